@@ -43,6 +43,8 @@ def run(ctx):
     d1_contiguity(ctx, RA, step, appenders)
     d4_indextype(ctx)
     d5_dtype(ctx, RA, step, roles, appenders)
+    from ._shared import opener_branch_agreement
+    opener_branch_agreement(ctx, 'D5')     # the handle's dtype (what appended items are cast to) is the descriptor's, also when empty
     d3_descriptor_updates(ctx, RA, committer, step)
     d4_cutpoint(ctx)
     truncate_rules(ctx)
